@@ -169,7 +169,10 @@ func (fgen *funcGen) irDIArgList(old *ast.DIArgList) (*metadata.DIArgList, error
 // metadataDefFromID returns the IR metadata definition associated with the
 // given AST metadata ID.
 func (gen *generator) metadataDefFromID(old ast.MetadataID) (metadata.Definition, error) {
-	id := metadataID(old)
+	id, err := metadataID(old)
+	if err != nil {
+		return nil, errors.WithStack(err)
+	}
 	node, ok := gen.new.metadataDefs[id]
 	if !ok {
 		return nil, errors.Errorf("unable to locate metadata ID %q", enc.MetadataID(id))
